@@ -18,7 +18,7 @@ LEVEL = "fault_enumeration"
 RULE = (
     "Sub-check histories (Hypothesis rule-based state machine, real files, harness-owned clock via os.utime): rules "
     "rewrite_fasta(content from a pool; mtime later, or equal to the newest cache file), delete_fai, delete_agp, "
-    "age_cache(file -> FASTA mtime | older), auto_load(fresh FastaIndex). After every auto_load: result = reference index + "
+    "age_cache(file -> FASTA mtime | older), auto_load(fresh FastaIndex), create an index object now / auto_load it later. After every auto_load: result = reference index + "
     "assembly of the FASTA's current bytes, or an exception; both cache files exist; if either was missing or not strictly "
     "newer before the call both were rewritten with the reference content. Sub-check crash (fault enumeration): the file "
     "operations of an indexing run (stat, open, every flush of k in {7,64,8192} bytes, close, replace/rename/unlink) are "
@@ -183,8 +183,41 @@ class History:
         self.dirty = False
         return "ok"
 
+    def hold(self):
+        """create the index object now, load it later (possibly after the FASTA or the cache changed)"""
+        self.held = FastaIndex(self.path)
+
+    def load_held(self):
+        if getattr(self, "held", None) is None:
+            return None
+        fai, self.held = self.held, None
+        ft = self.path.stat().st_mtime
+        valid_before = all(p.exists() and p.stat().st_mtime > ft for p in (self.fai, self.agp))
+        self.loads += 1
+        want = oracle_of(self.content)
+        try:
+            fai.auto_load()
+            got = result_of(fai)
+        except Exception as e:  # noqa: BLE001
+            self.dirty = False
+            return "raised " + type(e).__name__
+        finally:
+            fa.close(fai)
+        compare(got, want, "auto_load on an index object created before the last change")
+        self.nontrivial_loads += 1
+        self.clock += 1
+        for p in (self.fai, self.agp):
+            if p.exists():
+                self.stamp(p, self.clock) if not valid_before else None
+        self.dirty = False
+        return "ok"
+
     def apply(self, op):
         k = op[0]
+        if k == "hold":
+            return self.hold()
+        if k == "load_held":
+            return self.load_held()
         if k == "rewrite":
             self.write_fasta(op[1], op[2])
         elif k == "delete":
@@ -248,8 +281,12 @@ def run_histories(rec, tier, seed_value, shard, nshards, handle):
             self.do(["load"])
 
         @rule()
-        def auto_load_again(self):
-            self.do(["load"])
+        def create_index_object(self):
+            self.do(["hold"])
+
+        @rule()
+        def load_held_index_object(self):
+            self.do(["load_held"])
 
         def teardown(self):
             if self.h is not None:
